@@ -347,7 +347,25 @@ func (ev *Ev) expr(e ast.Expr) Value {
 	if !ev.spec {
 		if tv, ok := ev.info().Types[e]; ok && tv.Value != nil {
 			if _, isLit := e.(*ast.FuncLit); !isLit {
-				return ev.u.constValue(tv.Value, tv.Type)
+				val := tv.Value
+				if !ev.u.floatIEEE && ev.u.sortOf(tv.Type) == SReal {
+					// float real: decimal constants are read as exact decimals, not as their float64 rounding
+					switch x := ast.Unparen(e).(type) {
+					case *ast.BasicLit:
+						if x.Kind == token.FLOAT || x.Kind == token.INT {
+							val = constant.MakeFromLiteral(x.Value, x.Kind, 0)
+						}
+					case *ast.Ident:
+						if c, ok := ev.info().ObjectOf(x).(*types.Const); ok {
+							val = c.Val()
+						}
+					case *ast.SelectorExpr:
+						if c, ok := ev.info().ObjectOf(x.Sel).(*types.Const); ok {
+							val = c.Val()
+						}
+					}
+				}
+				return ev.u.constValue(val, tv.Type)
 			}
 		}
 	}
@@ -743,10 +761,14 @@ func (ev *Ev) box(v Value) Value {
 	}
 	if v.K == vStruct || v.K == vSlice {
 		// boxed composite: injective uninterpreted constructor over the leaves is overkill; use a fresh ref
-		return scalar(ev.u.fresh("boxed", SRef), SRef, v.Typ)
+		b := ev.u.fresh("boxed", SRef)
+		ev.st.assume(not(app("=", b, "nil"))) // an interface holding a struct or slice value is not nil
+		return scalar(b, SRef, v.Typ)
 	}
 	if v.K == vAddr {
-		return scalar(ev.u.fresh("addr", SRef), SRef, v.Typ)
+		a := ev.u.fresh("addr", SRef)
+		ev.st.assume(not(app("=", a, "nil")))
+		return scalar(a, SRef, v.Typ)
 	}
 	return v
 }
@@ -1373,6 +1395,9 @@ func (ev *Ev) assignLV(lv *LValue, v Value) {
 			if ev.guardedCheck != nil {
 				ev.guardedCheck(lv, p)
 			}
+			if !ev.spec && !u.allocd[lv.Ref] {
+				u.checkTypeInvWrite(ev, lv.rootT, token.NoPos)
+			}
 			u.writeField(ev.st, lv.rootT, p, l.S, lv.Ref, l.T)
 		})
 	case lvElem:
@@ -1677,6 +1702,7 @@ func (ev *Ev) compositeLit(x *ast.CompositeLit, addr bool) Value {
 		walkValue(v, "", func(path string, l Value) {
 			u.writeField(ev.st, t, path, l.S, ref, l.T)
 		})
+		u.checkTypeInvAlloc(ev, t, ref)
 		return scalar(ref, SRef, types.NewPointer(t))
 	}
 	return v
